@@ -87,6 +87,17 @@ CORPUS = [
     {"label": "-r", "args": ["-r", "--stop-timeout=1"], "child_script": "exit_after=5000,on_term=ignore",
      "events": [{"k": "change", "at_ms": 150}], "wait_ms": 1600,
      "mode": 0, "restart": True, "signal": None, "stop": None, "postpone": False, "eff": 2, "life": 5000, "react": "ignore"},
+    # the boundary value: a zero stop timeout kills at once, and the fresh run still follows (twice)
+    {"label": "-r", "args": ["-r", "--stop-timeout=0"], "child_script": "exit_after=5000,on_term=ignore",
+     "events": [{"k": "change", "at_ms": 150}, {"k": "change", "at_ms": 450}], "wait_ms": 600,
+     "mode": 0, "restart": True, "signal": None, "stop": None, "postpone": False, "eff": 2, "life": 5000, "react": "ignore"},
+    {"label": "-r", "args": ["-r", "--stop-timeout=0ms"], "child_script": "exit_after=5000,on_term=exit:0",
+     "events": [{"k": "change", "at_ms": 150}], "wait_ms": 500,
+     "mode": 0, "restart": True, "signal": None, "stop": None, "postpone": False, "eff": 2, "life": 5000, "react": "exit:0"},
+    # start-up with a long debounce and no change at all: the first run is not held back by the debounce window
+    {"label": "default", "args": ["--debounce=1s"], "child_script": "exit_after=5000,on_term=exit:0",
+     "events": [], "wait_ms": 500,
+     "mode": 0, "restart": False, "signal": None, "stop": None, "postpone": False, "eff": 0, "life": 5000, "react": "exit:0"},
     # do-nothing then idle start
     {"label": "default", "args": [], "child_script": "exit_after=300",
      "events": [{"k": "change", "at_ms": 100}, {"k": "change", "at_ms": 500}], "wait_ms": 700,
@@ -102,8 +113,16 @@ def run_parallel(cases, tag, procs=16):
         if not chunks[k]:
             return 0, [], ""
         f = os.path.join(d, f"cases_{k}.jsonl")
-        write_jsonl(f, chunks[k])
-        return run_harness("h_cli", ["onbusy", f, os.path.join(d, f"fs{k}")], timeout=900)
+        import translate
+        sp = (translate.TABLES.get("sourceprio") or {}).get("startup", "Urgent")
+        write_jsonl(f, [dict(cc, startup_prio=sp) for cc in chunks[k]])
+        objs = []
+        while len(objs) < len(chunks[k]):          # a hung case ends the process: resume after it
+            rc, part, txt = run_harness("h_cli", ["onbusy", f, os.path.join(d, f"fs{k}"), str(len(objs))], timeout=900)
+            if rc != 0 or not part or (len(objs) + len(part) < len(chunks[k]) and not part[-1].get("hung")):
+                return rc or 1, objs + part, txt
+            objs += part
+        return 0, objs, ""
     out = {}
     with ThreadPoolExecutor(max_workers=procs) as ex:
         for k, (rc, objs, txt) in enumerate(ex.map(one, range(procs))):
@@ -193,7 +212,7 @@ def expand_model(s):
 
 class C05(Prop):
     pid = "C05"
-    generators = ["onbusy", "jobapi"]
+    generators = ["onbusy", "jobapi", "sourceprio"]
     coq_targets = ["Run/EvalC05.vo"]
     bins = ["h_cli", "simchild"]
     level = "proof"
@@ -263,6 +282,16 @@ class C05(Prop):
             c.errors.append(str(e))
             return c
         terms, meta = [], []
+        hung = [(case, o) for case, o in zip(cases, obs) if o.get("hung")]
+        for case, o in hung:
+            c.evaluations += 1
+            c.disagreements.append({"case": {"id": case["id"], "args": case["args"], "child": case["child_script"]}, "impl": "no progress", "model": "-",
+                                    "what": "sequence of change/start/signal/exit"})
+            c.failing.append({"case": {"id": case["id"], "args": case["args"], "child": case["child_script"], "events": [e["at_ms"] for e in case["events"]]},
+                              "impl": "the instance made no progress for 10 s past the end of the scenario",
+                              "clause": "C05: after a change the command is neither restarted nor left alone -- the job task spins and stalls the instance"})
+        keep = [(case, o) for case, o in zip(cases, obs) if not o.get("hung")]
+        cases, obs = [k[0] for k in keep], [k[1] for k in keep]
         for case, o in zip(cases, obs):
             if "error" in o:
                 c.errors.append(f"harness error on {case['args']}: {o['error']}")
@@ -296,10 +325,13 @@ class C05(Prop):
             c.count("react=" + case["react"])
             busy_change = any(a.startswith("sig") or a == "chg" and i > 0 and "start" in want[:i] and want[:i].count("start") > want[:i].count("exit")
                               for i, a in enumerate(want))
+            # with a zero stop timeout the kill follows the stop signal at once: the helper child cannot be relied on to log the signal
+            zg = any(a in ("--stop-timeout=0", "--stop-timeout=0ms", "--stop-timeout=0s") for a in case["args"])
+            cmp_seq, cmp_want = ([a for a in seq if not a.startswith("sig")], [a for a in want if not a.startswith("sig")]) if zg else (seq, want)
             if amb:
                 c.count("ambiguous-order(skipped)")
             else:
-                if seq == want:
+                if cmp_seq == cmp_want:
                     c.validated += 1
                     if busy_change:
                         c.nontrivial.add(json.dumps([case["label"], case["stop"], case["postpone"], case["react"], case["life"], len(want)]))
@@ -351,7 +383,11 @@ class C05(Prop):
                             c.failing.append({"case": brief, "impl": seq, "clause": "C05_signal_only: no signal delivered for a change while running"})
                         if em == 3 and nxt[1:2] and nxt[1].startswith("sig"):
                             c.failing.append({"case": brief, "impl": seq, "clause": "C05_signal_only: more than one signal for one change batch"})
-                        if em == 2 and not (len(nxt) == 2 and nxt[0].startswith("sig") and nxt[1] == "start"):
+                        # (with a zero stop timeout the kill follows the stop signal at once: the helper child may not get to log the signal)
+                        zero_grace = any(a in ("--stop-timeout=0", "--stop-timeout=0ms", "--stop-timeout=0s") for a in case["args"])
+                        if em == 2 and zero_grace and nxt[:1] == ["start"]:
+                            pass
+                        elif em == 2 and not (len(nxt) == 2 and nxt[0].startswith("sig") and nxt[1] == "start"):
                             c.failing.append({"case": brief, "impl": seq, "clause": "C05_restart: change while running not followed by stop signal and a fresh start"})
                         if em == 0 and nxt[:1] and nxt[0] in ("start",):
                             c.failing.append({"case": brief, "impl": seq, "clause": "C05_do_nothing: a run was started while the command was running"})
